@@ -274,6 +274,12 @@ def run_case(case):
             y = a0 * dtj
             acc_add(acc("gillespie-wait"), y, lambda th: -math.log1p(-th), 1.0)
             hist("gillespie-wait", -math.expm1(-y))
+            # the waiting time is independent of WHICH event ends it: the same Exp(1) law within every event category
+            for c in cat_members:
+                if diff in cat_keys[c]:
+                    acc_add(acc("gillespie-wait|next-event:" + c), y, lambda th: -math.log1p(-th), 1.0)
+                    hist("gillespie-wait|next-event:" + c, -math.expm1(-y))
+                    break
             for c, members in cat_members.items():
                 p = sum(props[k] for k in members) / a0
                 if 0.0 < p < 1.0:
